@@ -3,6 +3,7 @@ import Nstd.Future.SimRing
 import Nstd.Future.ProtoLemmas
 import Nstd.Future.Witness
 import Nstd.Future.Safety
+import Nstd.Future.SafetyFault
 import Nstd.Future.LiveWorker
 import Nstd.Future.Handshake
 /-
@@ -73,15 +74,14 @@ theorem exec_with_start_arguments {cfg : Config} {s : State} (h : Reach cfg s) {
     (he : s.execArgs c = some (a, b)) : ∃ r, s.everCalls c = some r ∧ r.a = a ∧ r.b = b :=
   exec_args_are_start_args h he
 
-/-- The `Call` record is deleted at most once, and while a thread is inside `proc` for it (or the starting client is
-    still inside `startProc` before `run`) the record is alive and unchanged; the model's use-after-delete /
-    double-delete / raw-slot faults never fire (the remaining fault message "no pool" is excluded under `WorkerPool`,
-    see `no_fault_of_workerPool`). -/
+/-- The `Call` record is deleted at most once; while a thread is inside `proc` for it the record is alive and unchanged;
+    the model's fault flag never fires in any reachable state: no use of a record after its delete, no double delete, no
+    read of a raw (unconstructed / destructed) queue slot, no pool code running without a pool. -/
 theorem call_record_freed_once_and_alive {cfg : Config} {s : State} (h : Reach cfg s) (c : Nat) :
     s.freeCount c ≤ 1 ∧
     (∀ t th fr, s.threads t = some th → fr ∈ th.stack → inProc c fr = true → ∃ r, s.calls c = some r ∧ s.everCalls c = some r) ∧
-    (s.fault = none ∨ s.fault = some "no pool") :=
-  ⟨call_record_freed_once h c, fun _ _ _ hth hfr hp => exec_record_alive h hth hfr hp, no_fault_partial h⟩
+    s.fault = none :=
+  ⟨call_record_freed_once h c, fun _ _ _ hth hfr hp => exec_record_alive h hth hfr hp, no_fault h⟩
 
 /-! ## Completion handshake (full model, every schedule, both code variants; each future used by one client thread) -/
 
